@@ -363,7 +363,14 @@ fn snapshot_ctxs(ctxs: &BTreeMap<usize, CelContext>, universe: &[String]) -> BTr
                 // after every operation: they must not change anything either
                 let _ = (p.params().len(), p.ast().is_some(), p.details().params().len(), p.bytecode().len());
                 let _ = c.program_details(n).map(|d| (d.params().len(), d.source().map(|s| s.len())));
-                m.insert(n.clone(), (p.source().unwrap_or("").to_string(), fnv(p.dumps_bc().as_bytes())));
+                // the digest of a stored program covers its bytecode and the parameter list it
+                // reports (sorted: the list is kept in a hash set)
+                let mut ps: Vec<&str> = p.params();
+                ps.sort();
+                let mut ds: Vec<String> = c.program_details(n).map(|d| d.params().iter().map(|x| x.to_string()).collect()).unwrap_or_default();
+                ds.sort();
+                let dump = format!("{}\nparams:{}\ndetails:{}", p.dumps_bc(), ps.join(","), ds.join(","));
+                m.insert(n.clone(), (p.source().unwrap_or("").to_string(), fnv(dump.as_bytes())));
             }
         }
         out.insert(*id, m);
